@@ -364,7 +364,7 @@ func (g *gen) call(d int) string {
 }
 
 func (g *gen) block(d int) string {
-	switch g.r.Intn(8) {
+	switch g.r.Intn(9) {
 	case 0:
 		return "($x := " + g.operand(d) + "; $x)"
 	case 1:
@@ -377,6 +377,9 @@ func (g *gen) block(d int) string {
 		return "($add := function($a, $b){$a + $b}; $inc := $add(?, 1); $inc(" + g.numLit() + "))"
 	case 5:
 		return "(" + g.operand(d) + " ~> " + g.pick("$string", "$count", "$sum", "function($v){$v}") + ")"
+	case 8:
+		f := func() string { return g.pick("$string", "function($v){$v + 1}", "function($v){$v * 2}", "$count", "function($v){[$v]}") }
+		return "($c := " + f() + " ~> " + f() + g.pick("", " ~> "+f(), " ~> "+f()+" ~> "+f()) + "; $d := $c ~> " + f() + "; $e := $c ~> " + f() + "; [$d(3), $e(3), $c(3)])"
 	case 6:
 		return "($f := function($x)<" + g.pick("n", "s", "n?", "a", "a<n>", "(ns)", "x", "n+", "j", "f", "o", "b") + ":n>{$x}; $f(" + g.operand(d) + "))"
 	default:
@@ -435,6 +438,26 @@ func (g *gen) program() string {
 		return g.call(2)
 	case "blocks":
 		return g.block(2)
+	case "group":
+		switch g.r.Intn(10) {
+		case 0, 1, 2, 3:
+			k := g.pick("s", "$string(k)", "s & $string(k)", `"lit"`, "k", "a", "$string(id % 3)")
+			v := g.pick("id", "$count($)", "$sum(k)", "[id]", `{"n": $count($)}`, "$", "s", "$max(id)", "id[0]")
+			extra := g.pick("", "", "", `, "all": $count($)`, ", s: k", `, "x": id`)
+			return g.pick("$", "a", "$[k >= 1]", "a[s = \"x\"]") + "{" + k + ": " + v + extra + "}"
+		case 4:
+			return "$keys(" + g.pick("$", "a", "a[0]", "$[0]", `{"p": 1, "q": 2}`) + ")"
+		case 5:
+			return "$merge($spread(" + g.pick("$[0]", "a[0]", "$", `{"p": 1, "q": [2]}`) + "))"
+		case 6:
+			return "$lookup(" + g.pick("$[0]", "a[0]", "$", "a") + ", " + g.pick(`"k"`, `"s"`, `"id"`, `"zz"`) + ")"
+		case 7:
+			return "$each(" + g.pick("$[0]", "a[0]", `{"p": 1, "q": 2}`) + ", function($v, $k){$k & \"=\" & $string($v)})"
+		case 8:
+			return "$sift(" + g.pick("$[0]", "a[0]", `{"p": 1, "q": 2}`) + ", function($v, $k){" + g.pick("$v > 0", `$k != "k"`, "$v") + "})"
+		default:
+			return "$count($keys(" + g.pick("$[0]", "a[0]") + ")) = $count($spread(" + g.pick("$[0]", "a[0]") + "))"
+		}
 	case "transform":
 		pat := g.pick("$", "a", "a.b", "*", "**", "a[b = 1]", "$$", "$v", "$v.a", "$w", "a[0]", "**[k = 1]", "c", "$$.a")
 		upd := g.pick(`{"z": 1}`, `{"a": 2}`, `{"b": {"q": 1}}`, `{"n": $count($keys($))}`, `{"k": k + 1}`, `{"z": $$.b}`, "5", `"x"`, "nothing", `{}`, `[{"z": 1}]`)
@@ -500,7 +523,7 @@ func genMain(args []string) {
 			if g.nulls && g.chance(0.3) {
 				d.(map[string]interface{})["n"] = nil
 			}
-		case *prof == "sort" || (*prof == "mix" && g.chance(0.2)):
+		case *prof == "sort" || *prof == "group" || (*prof == "mix" && g.chance(0.2)):
 			k := 2 + g.r.Intn(6)
 			if g.chance(0.3) {
 				k = 13 + g.r.Intn(40)
